@@ -520,7 +520,6 @@ def run_split(d):
     pt, pe = parents["time"].astype(np.int64), endtime(parents)
     used = np.zeros(len(out), dtype=bool)
     n_split = 0
-    deferred = None
     for pi in range(len(parents)):
         idx = [k for k in range(len(out)) if pt[pi] <= t[k] and e[k] <= pe[pi]]
         used[idx] = True
@@ -545,19 +544,10 @@ def run_split(d):
         if ds:
             classes.add("child_downsampled")
         detail = (d, "parent", (int(pt[pi]), int(pe[pi]), int(parents[pi]["dt"])), "children (time, endtime, dt)", spans)
-        coarsest = max([c[2] for c in spans] + [int(parents[pi]["dt"])])
 
         def hole(missing, sl, clause):
-            """A hole of `missing` ns where only `sl` is excused.  With the natural-breaks splitter a hole of at
-            most one sample per iteration is the recorded finding F1930: it is reported last, after every other clause."""
-            nonlocal deferred
-            if missing <= sl:
-                return
-            if d["algo"] == "natural_breaks" and missing - sl <= coarsest * d["iters"]:
-                if deferred is None:
-                    deferred = (clause, detail, tags + ["hole-of-one-sample-after-natural-breaks-split"])
-                return
-            check(False, clause, detail, tags)
+            """A hole of `missing` ns between / after the children, of which only `sl` is excused."""
+            check(missing <= sl, clause, detail, tags)
 
         check(spans[0][0] == pt[pi], "split.children_start_after_parent", detail, tags)
         for (a0, a1, _), (b0, b1, _), sl in zip(spans[:-1], spans[1:], slack[:-1]):
@@ -568,8 +558,6 @@ def run_split(d):
         if len(idx) >= 3:
             classes.add("ge3_children")
     check(bool(np.all(used)), "split.peak_outside_any_parent", (d, list(zip(t.tolist(), e.tolist()))), tags)
-    if deferred is not None:
-        check(False, *deferred)
     classes.add(d["algo"])
     if n_split:
         classes.add("split_happened")
@@ -1050,20 +1038,10 @@ def run_hdr(d):
     fr = list(d["fr"])
     classes = set()
     exp = [ref.hdr(d["data"], f, True) for f in fr] if d["upper"] else None
-    if d["upper"]:
-        # exactly buffer+1 intervals for the LAST fraction would make strax write beyond its result array
-        # (recorded finding F1931) - keep the process healthy: drop such trailing fractions
-        while fr and any(len(a) == B + 1 for a in exp[len(fr) - 1][0]):
-            fr.pop()
-            classes.add("last_fraction_dropped_buffer_plus_one")
-    else:
-        tot = float(data.sum())
+    worst = 0
+    if not d["upper"]:
         levels = sorted(set(d["data"]), reverse=True)
         worst = max(len(ref.intervals_of([x > L for x in d["data"]])) for L in levels[1:] + [-1.0])
-        if worst >= B + 1:
-            raise Excluded("F1931")  # cannot tell beforehand which fraction would overflow the buffer
-    if not fr:
-        raise Excluded("F1931")
     res, amp = strax.highest_density_region(data, np.array(fr, dtype=np.float64), only_upper_part=d["upper"], _buffer_size=B)
     check(res.shape == (len(fr), 2, B) and amp.shape == (len(fr),), "hdr.shape", (d, res.shape))
     for fi, f in enumerate(fr):
@@ -1079,10 +1057,9 @@ def run_hdr(d):
                     classes.add("buffer_too_small")
                 else:
                     oks.append(got_l == [x for x, _ in a] + [0] * (B - len(a)) and got_r == [y for _, y in a] + [0] * (B - len(a)))
-            tags = ["intervals==buffer_size+1"] if any(len(a) == B + 1 for a in alts) else []
-            check(any(oks), "hdr.intervals", (d, "fraction", f, "got", [got_l, got_r], "acceptable", alts), tags)
+            check(any(oks), "hdr.intervals", (d, "fraction", f, "got", [got_l, got_r], "acceptable", alts))
             check(abs(float(amp[fi]) - want_amp) <= 1e-5 * max(1.0, abs(want_amp)), "hdr.amplitude",
-                  (d, "fraction", f, float(amp[fi]), want_amp), tags)
+                  (d, "fraction", f, float(amp[fi]), want_amp))
             if len(alts) > 1:
                 classes.add("level_tie")
             if len(alts[0]) >= 2:
@@ -1092,13 +1069,14 @@ def run_hdr(d):
         else:
             # validity: a top set holding >= f of the area whose lowest level is needed for that
             if got_l == [-1] * B:
+                check(got_r == [-1] * B and worst > B, "hdr.flagged_although_region_fits", (d, f, [got_l, got_r], worst))
                 classes.add("buffer_too_small")
                 continue
             k = 0
             while k < B and got_r[k] > 0:
                 k += 1
             ivs = list(zip(got_l[:k], got_r[:k]))
-            check(all(0 <= a < b <= n for a, b in ivs) and all(b0 < a1 for (_, b0), (a1, _) in zip(ivs[:-1], ivs[1:]))
+            check(len(ivs) <= B and all(0 <= a < b <= n for a, b in ivs) and all(b0 < a1 for (_, b0), (a1, _) in zip(ivs[:-1], ivs[1:]))
                   and not any(got_l[k:]) and not any(got_r[k:]), "hdr.intervals_malformed", (d, f, [got_l, got_r]))
             inside = np.zeros(n, dtype=bool)
             for a, b in ivs:
@@ -1116,23 +1094,6 @@ def run_hdr(d):
     classes.add("upper" if d["upper"] else "full_area")
     classes.add("buffer%d" % B)
     return dict(nt=n >= 3 and np.count_nonzero(data) >= 2, classes=sorted(classes))
-
-
-@signature("F1931_hdr_buffer_off_by_one")
-def _sig_f31(sub, desc, bucket, message):
-    """highest_density_region: a region of exactly _buffer_size + 1 intervals passes the `len(gaps) > _buffer_size`
-    test and is written one slot beyond the row (corrupting the neighbouring entries) instead of being flagged -1."""
-    return (sub in ("hdr", "hdr_exh") and bucket == "clause:hdr.intervals" and "[intervals==buffer_size+1]" in message)
-
-
-@signature("F1930_natural_breaks_drops_last_sample")
-def _sig_f30(sub, desc, bucket, message):
-    """NaturalBreaksSplitter.find_split_points ends the last child at len(w) - 1: the last sample of every peak
-    split by natural breaks belongs to no child (a one-sample hole at the end of the parent, or between
-    children when a child is split again)."""
-    return (sub == "split" and desc.get("algo") == "natural_breaks"
-            and bucket in ("clause:split.children_end_before_parent", "clause:split.gap_between_children")
-            and "[hole-of-one-sample-after-natural-breaks-split]" in message)
 
 
 # Every worker process compiles the numba functions it touches from scratch (private caches): ~3 CPU-minutes for
